@@ -168,7 +168,7 @@ def r191(ctx, res):
                                   construct="cached %s in %s" % (txt(n), short), file=mod.relpath, function=short)
     res.count("getter calls", n_calls)
     res.count("stale reads", n_reads)
-    ctx.require(res, "R19.1", n_calls, 40, "live getter calls")
+    ctx.require(res, "R19.1", n_calls, 20, "live getter calls")
 
 
 class _Fold:
@@ -391,7 +391,7 @@ def r194(ctx, res):
                               construct="round precision `%s` in %s" % (txt(prec), short), file=mod.relpath,
                               function=short)
     res.count("rounding sites", n)
-    ctx.require(res, "R19.4", n, 25, "rounding sites with a precision")
+    ctx.require(res, "R19.4", n, 10, "rounding sites with a precision")
 
 
 def run(ctx, res):
